@@ -22,7 +22,7 @@ def meta(ch, carrier, salt, method):
     return ['%s(method = "%s")', '%s(method(%s))', '%s(ignore = false, method(%s))', '%s(method(%s), ignore(false))'][salt % 4] % (carrier, method)
 
 
-def build(shape, assign, cfg, ctx='alone', small_domain=False, repr=None, discr=None, probe=None):
+def build(shape, assign, cfg, ctx='alone', small_domain=False, repr=None, discr=None, probe=None, bound=None):
     """cfg: 'H' Hash only; 'HP' Hash + PartialEq with the same ignore/method choices"""
     tys, fattrs, doms = [], [], []
     salt = 0
@@ -47,6 +47,8 @@ def build(shape, assign, cfg, ctx='alone', small_domain=False, repr=None, discr=
         fattrs.append(a)
         doms.append(d)
     traits = 'Hash' if cfg == 'H' else 'PartialEq, Hash'
+    if bound:
+        traits = traits.replace('Hash', 'Hash(%s)' % bound)
     if ctx != 'alone':
         traits = ('Debug, ' + traits) if ctx.endswith('before') else (traits + ', Debug')
         derives = 'Educe'
@@ -72,7 +74,7 @@ def build(shape, assign, cfg, ctx='alone', small_domain=False, repr=None, discr=
     src += 'pub fn check(r: &mut Rep) {\n    let vs = values();\n    hash_check(r, &vs, &info, %s, %s);\n}\n' % (
         'Some(&|a: &Ty, b: &Ty| a == b)' if cfg == 'HP' else 'None', 'true' if shape.kind == 'struct' else 'false')
     depth = sum(1 for a in assign for ch in a if ch != 'c') + (cfg == 'HP') + (ctx != 'alone')
-    key = 'C05|%s|%s|%s%s%s%s' % (cfg, shape.code(), ','.join(assign), '' if ctx == 'alone' else '|' + ctx, '|repr(%s)' % repr if repr else '', '|d=%s' % ','.join('_' if d is None else str(d) for d in discr) if discr else '')
+    key = 'C05|%s|%s|%s%s%s%s' % (cfg, shape.code(), ','.join(assign), '' if ctx == 'alone' else '|' + ctx, '|repr(%s)' % repr if repr else '', ('|d=%s' % ','.join('_' if d is None else str(d) for d in discr) if discr else '') + ('|' + bound if bound else ''))
     return Case(key, src, {'cfg': cfg, 'shape': shape.code(), 'assign': list(assign), 'ctx': ctx, 'values': len(vals)},
                 expect='accept', run=True, depth=depth)
 
@@ -148,6 +150,12 @@ def generate(tier):
                     c = build(sh, assign, cfg)
                 c.key += '|rot'
                 cases.append(c)
+    # explicit bound modes (the types are not generic: no mode may change what is fed)
+    for sh in [S.Shape('struct', [S.Fields('n', 2)]), S.Shape('struct', [S.Fields('t', 2)]), S.Shape('enum', [S.Fields('t', 2), S.Fields('n', 2)]), S.Shape('enum', [S.Fields('n', 1), S.Fields('u'), S.Fields('t', 1)]),
+               S.Shape('enum', [S.Fields('t', 4), S.Fields('n', 3), S.Fields('u')])]:
+        for assign in assignments_k(sh, 'cim', 1 if len(sh.positions()) <= 4 else 2):
+            for bound in ('bound(*)', 'bound = false', 'bound(u8: Copy)', 'bound = "u8: Copy,"'):
+                cases.append(build(sh, assign, 'H', bound=bound, small_domain=True))
     for nv in (256, 257, 300):
         cases.append(build_many(nv, 'H' if nv != 257 else 'HP'))
     from .common import zoo_cases
